@@ -175,6 +175,21 @@ CLAIMED = {
         "(snarf_fld, make_task) is compared through the dump only (C05). KNOWN FINDING D17 (backslash escapes).",
    technique="Lean 4 proof (invariant over the stash + induction over the partition) + differential chunking check with a source hook",
    design="§5 C10"),
+ "C17": dict(
+   text="Lean theorems (Echse.Props.C17) about the transcribed easter_get_yday, yd_to_md, fill_yly_eastr, shift() and snarf_shift(): "
+        "Easter is the anonymous Gregorian computus for every year 1901-2099 (kernel enumeration) and a Sunday; BYEASTER=N selects the date N "
+        "days from Easter whenever it lies in the same year; SHIFT=N is the date N calendar days away for all dates, years and N in "
+        "-366..366 (symbolic in the year: induction over the month/year carry loop); SHIFT=NB / NB+ / NB- / -0B equals a business-day "
+        "specification written from the README for all dates and 0..366 business days (closed form of the u5/u7 arithmetic against an "
+        "iterative spec); both parts compose; a set is shifted date by date; the SHIFT text forms parse to the packed value. "
+        "The real functions (evrrul.c #included into harness hx_rrul) are compared with the model op by op, and whole rules "
+        "(RFC 5545 reference expansion + date arithmetic, then DTSTART/UNTIL/COUNT) judge the real parser and rule stream.",
+   note="Trusted: Lean kernel; Spec/RuleExt.lean (computus, business-day stepping) and Spec/Cal.lean; harnesses hx_rrul.c, hx_strm.c; "
+        "vlib/rfc5545.py for the unshifted sets. Two theorems hold as `_partial` only because echse's leap rule y%4 makes 2100 a leap "
+        "year (results beyond 2100-02-28 excluded; counterexamples proved). KNOWN FINDINGS D61 (BYEASTER offset leaving the year is dropped), "
+        "D64 (shift beyond the neighbouring year), D66 (SHIFT with INTERVAL>1 loses the phase at a refill).",
+   technique="Lean 4 proof (kernel enumeration over 199 years; induction over the carry loop; closed-form arithmetic vs iterative spec) + function-level differential correspondence + reference-expander oracle",
+   design="§5 C17, §9"),
 }
 
 checks = []
